@@ -1,6 +1,7 @@
 package main
 
 import (
+	"strconv"
 	"fmt"
 	"go/constant"
 	"go/token"
@@ -133,6 +134,9 @@ func (p *Program) errValueOf(s errShape) (evVal, string) {
 		var k constant.Value
 		if name == "0" {
 			k = constant.MakeInt64(0)
+		} else if strings.HasPrefix(name, "#") {
+			n, _ := strconv.ParseInt(name[1:], 10, 64)
+			k = constant.MakeInt64(n)
 		} else {
 			c, _ := sys.Pkg.Scope().Lookup(name).(*types.Const)
 			if c == nil {
@@ -311,6 +315,46 @@ func checkErrorShapes(c *Ctx, rule string) {
 	}
 	c.check(tbl["ENOENT"] == 2 && tbl["EACCES"] == 3 && tbl["EPERM"] == 3 && tbl["default"] == 4 && tbl["0"] == 0, rule, "translateErrno table", "errno_posix.go",
 		"ENOENT→NO_SUCH_FILE, EACCES|EPERM→PERMISSION_DENIED, 0→OK, else FAILURE", fmt.Sprintf("translateErrno table is %v", tbl))
+	// every other errno value is a plain failure: the whole range is run, bare and inside *os.PathError (ELOOP, ENOTDIR,
+	// EEXIST… reported as "no such file" or "permission denied" change what the client's os.IsNotExist/IsPermission say)
+	if sys := p.SSA.ImportedPackage("syscall"); sys != nil {
+		val := func(name string) int64 {
+			if cst, ok := sys.Pkg.Scope().Lookup(name).(*types.Const); ok {
+				if k, ok := constant.Int64Val(constant.ToInt(cst.Val())); ok {
+					return k
+				}
+			}
+			return -1
+		}
+		enoent, eacces, eperm := val("ENOENT"), val("EACCES"), val("EPERM")
+		sweep := &errEval{p: p}
+		wrong, und := "", ""
+		for k := int64(1); k < 256 && wrong == "" && und == ""; k++ {
+			want := int64(4)
+			switch k {
+			case enoent:
+				want = 2
+			case eacces, eperm:
+				want = 3
+			}
+			got, ok := sweep.evalTranslate(errShape{Name: fmt.Sprintf("syscall.Errno(%d)", k), Outer: "Errno", Errno: fmt.Sprintf("#%d", k)})
+			if sweep.failed != "" || !ok {
+				und = sweep.failed
+				if und == "" {
+					und = fmt.Sprintf("errno %d is not translated", k)
+				}
+				break
+			}
+			if got != want {
+				wrong = fmt.Sprintf("syscall.Errno(%d) is answered with status code %d, expected %d", k, got, want)
+			}
+		}
+		if und != "" {
+			c.und(rule, "translateErrno over all errno values", "errno_posix.go", und)
+		} else {
+			c.check(wrong == "", rule, "translateErrno over all errno values", "errno_posix.go", "1..255: ENOENT→2, EACCES|EPERM→3, everything else→4", wrong+": an error of another kind reaches the client as not-exist or permission")
+		}
+	}
 	ev := &errEval{p: p, errno: tbl}
 	for _, s := range stdErrShapes() {
 		got, ok := ev.evalStatus(s)
